@@ -12,7 +12,7 @@
    op_ok:     OB p: 0 <= p <= 255.  OL n, OS n: 0 <= n <= 8 (the crate returns a u8: longer literals wrap there).
               OT k: k < length trees and the tree is well formed (tree_okb: 2 entries per probability, at most 64 inner
               nodes, byte probabilities, every positive entry an even index further on, every other entry in -127..0)
-              and entered at an even index.  All 111 entries of Model.ArithDec.vp8_trees qualify (vp8_trees_ok).
+              and entered at an even index.  All 115 entries of Model.ArithDec.vp8_trees qualify (vp8_trees_ok).
    HYPOTHESIS `nth 0 data 0 <> 255`: a partition whose first byte is 0xFF starts the decoder outside its invariant
               value/2^8 < range; the value register then grows without bound, the result depends on the register width
               (RFC: platform-defined bool_value; crate: u64 with silent loss of high bits) and the decoders disagree:
